@@ -21,7 +21,11 @@ const (
 	c07Redo = "\x18\x1ar" // bound by the spec
 )
 
-var c07Edits = []string{"a", "b", " ", "x", "-", "\x7f", "\x04", "\x0b", "\x15", "\x17", "\x1bd", "\x19", "\x14", "\x1bu", "\x1bc"}
+var c07Edits = []string{"a", "b", " ", "x", "-", "\x7f", "\x04", "\x0b", "\x15", "\x17", "\x1bd", "\x19", "\x14", "\x1bu", "\x1bc",
+	// commands with a numeric argument (one read: the argument and the command): one command, one state.
+	// Only commands that use their argument: one that ignores it leaves it to the next command (known finding
+	// C16-count-leak), and previous-history would then walk several lines
+	"\x1b3\x04", "\x1b2\x04"}
 var c07Moves = []string{"\x01", "\x05", "\x02", "\x06", "\x1bb", "\x1bf"}
 
 // history walking: each history line has its own undo history, whose initial content is the entry
@@ -58,6 +62,11 @@ func init() {
 			}
 			kind := []string{"undo-all", "undo-redo", "undo-edit-undo", "undo-redo-undo-all"}[r.Intn(4)]
 			c := Case{Keys: hexChunks(keys), Class: kind, Meta: map[string]string{"kind": kind, "n": fmt.Sprint(1 + r.Intn(3))}}
+			if r.Intn(4) == 0 {
+				// a small history-size: it bounds the history, not the number of states a line can be undone through
+				c.Meta["histsize"] = fmt.Sprint(2 + r.Intn(4))
+				c.Class += "/history-size"
+			}
 			props["C07"].build(&c)
 			return c
 		},
@@ -92,6 +101,9 @@ func init() {
 			}
 			c.Meta["body"] = fmt.Sprint(body)
 			sp := Spec{Prompt: "> ", Mode: "emacs", Runs: 1, Binds: []Bind{{Seq: `\C-x\C-zr`, Cmd: "redo"}}, Sources: []Src{{Name: "main", Lines: c07History}}}
+			if c.Meta["histsize"] != "" {
+				sp.Inputrc = "set history-size " + c.Meta["histsize"] + "\n"
+			}
 			sp.Chunks = hexChunks(keys)
 			c.Specs = []Spec{sp}
 		},
